@@ -1035,31 +1035,121 @@ def _model_state(t, obj):
     return None
 
 
-def _invoke(t, obj, c):
+# ------------------------------------------------------------------------------------------------
+# the process-wide generator: every reseed / draw the library makes during one call is recorded
+
+_RNG_DRAWS = ('random', 'randrange', 'randint', 'sample', 'choices', 'choice', 'shuffle', 'uniform', 'getrandbits',
+              'gauss', 'betavariate', 'expovariate', 'normalvariate', 'triangular', 'randbytes')
+_RNG_ORIG = {}
+
+
+def _draw_site():
+    """(Class.method that owns the draw, the enclosing library functions) from the stack of a draw"""
+    f = sys._getframe(2)
+    chain = []
+    while f is not None:
+        fn = f.f_code.co_filename
+        if os.sep + 'votelib' + os.sep in fn:
+            chain.append(getattr(f.f_code, 'co_qualname', f.f_code.co_name))
+        f = f.f_back
+    owner = next((q for q in chain if '.' in q and '<' not in q), chain[0] if chain else '?')
+    return owner, chain
+
+
+class RngTrace:
+    """monkey-patches `random.seed` and the drawing functions of the `random` module (the library calls them through the
+    module, `random.seed(...)`, `random.sample(...)`) while one library call runs"""
+    def __init__(self):
+        self.events = []        # 's:<seed>' | 'd:<owner>'
+        self.sites = set()
+
+    def __enter__(self):
+        import random as _r
+        if not _RNG_ORIG:
+            _RNG_ORIG['seed'] = _r.seed
+            for n in _RNG_DRAWS:
+                if hasattr(_r, n):
+                    _RNG_ORIG[n] = getattr(_r, n)
+        tr = self
+
+        def seed(a=None, *args, **kw):
+            tr.events.append('s:' + repr(a))
+            return _RNG_ORIG['seed'](a, *args, **kw)
+        _r.seed = seed
+        for n in _RNG_DRAWS:
+            if n in _RNG_ORIG:
+                def mk(n):
+                    def draw(*args, **kw):
+                        owner, chain = _draw_site()
+                        tr.events.append('d:' + owner)
+                        tr.sites.add('draw:' + owner)
+                        if any(q.endswith('initial_allocation') for q in chain):
+                            tr.sites.add('draw_via:initial_allocation')
+                        if chain and chain[-1].endswith('.transfer'):
+                            tr.sites.add('draw_via:direct_transfer')
+                        if any(q.endswith('next_count') for q in chain):
+                            tr.sites.add('draw_via:next_count')
+                        return _RNG_ORIG[n](*args, **kw)
+                    return draw
+                setattr(_r, n, mk(n))
+        return self
+
+    def __exit__(self, *a):
+        import random as _r
+        for n, f in _RNG_ORIG.items():
+            setattr(_r, n, f)
+
+
+def _perturb(k):
+    """leave the process-wide generator in a state of the harness's choosing (the `other f` call of the model)"""
+    import random as _r
+    (_RNG_ORIG.get('seed') or _r.seed)(k)
+
+
+def _invoke(t, obj, c, perturb=None):
     dec = _Dec()
     args = [dec(a) for a in c['a']]
     kw = {k: dec(v) for k, v in c.get('k', {}).items()}
     before = enc([args, kw], ordered=True)
-    out = outcome(lambda: getattr(obj, c['m'])(*args, **kw))
+    if perturb is not None:
+        _perturb(perturb)
+    with RngTrace() as tr:
+        out = outcome(lambda: getattr(obj, c['m'])(*args, **kw))
     after = enc([args, kw], ordered=True)
     mut = None
     if before != after:
         mut = {'before': before, 'after': after}
-    return out, mut
+    return out, mut, tr
+
+
+def reseed_contract(t, events):
+    """None if the event sequence of one call of a seeded component is an execution of the `seededStep` model: every draw
+    is preceded, within the call, by `random.seed(<the component's seed>)`, and nothing else is ever seeded"""
+    seeded = False
+    for e in events:
+        if e.startswith('s:'):
+            if e != 's:' + repr(t['seed']):
+                return f'random.seed({e[2:]}) inside a call of a component seeded with {t["seed"]}'
+            seeded = True
+        elif not seeded:
+            return f'draw in {e[2:]} not preceded by random.seed({t["seed"]}) within the call (events: {events[:8]})'
+    return None
 
 
 def run_history(case):
     T = TARGETS()
     names = case['targets']
     calls = case['calls']
-    obs = {'fresh': [], 'shared': [], 'repeat': [], 'mutated': [], 'drift': [], 'mstate': [], 'defaults': []}
+    obs = {'fresh': [], 'shared': [], 'repeat': [], 'mutated': [], 'drift': [], 'mstate': [], 'defaults': [],
+           'rng': [], 'rng_fresh': []}
     pre = check_defaults()          # pollution left over by earlier cases is not this case's
     m0 = _module_state()
     # fresh instances first (nothing of this history has happened yet)
     for i, c in enumerate(calls):
         t = T[names[c['t']]]
-        out, mut = _invoke(t, t['make'](), c)
+        out, mut, tr = _invoke(t, t['make'](), c, perturb=100003 * i + 17)
         obs['fresh'].append(out)
+        obs['rng_fresh'].append(tr.events[:64])
         if mut:
             obs['mutated'].append({'call': i, 'run': 'fresh', 'target': t['name'], **mut})
     bad = check_defaults()
@@ -1071,8 +1161,12 @@ def run_history(case):
             shared[c['t']] = t['shared']() if 'shared' in t else t['make']()
         obj = shared[c['t']]
         s0 = _state(obj)
-        out, mut = _invoke(t, obj, c)
+        out, mut, tr = _invoke(t, obj, c)
         s1 = _state(obj)
+        obs['rng'].append(tr.events[:64])
+        for site in tr.sites:
+            if site not in case.setdefault('_tags', []):
+                case['_tags'].append(site)
         obs['shared'].append(out)
         obs['mstate'].append(_model_state(t, obj))
         if mut:
@@ -1088,7 +1182,7 @@ def run_history(case):
     for i, c in enumerate(calls):
         t = T[names[c['t']]]
         if t.get('seed') is not None:
-            out, _ = _invoke(t, t['make'](), c)
+            out, _, _ = _invoke(t, t['make'](), c, perturb=7919 * i + 5)
             obs['repeat'].append(out)
         else:
             obs['repeat'].append(None)
@@ -1127,9 +1221,9 @@ def impl(case):
         raise ValueError(case['op'])
     # every library call inside runs under its own 3 s alarm (`outcome`): common.call_with_timeout does not nest (the inner
     # alarm(0) cancels the outer alarm), so there is no outer watchdog here
-    if _ISOLATE or os.environ.get('VERIF_C18_ISOLATE'):
-        return run_isolated(case)
-    return run_history(case)
+    obs = run_isolated(case) if (_ISOLATE or os.environ.get('VERIF_C18_ISOLATE')) else run_history(case)
+    case['_rng'] = obs.get('rng')       # harness-only: the observed reseed / draw events, read by `model_line`
+    return obs
 
 
 def oracle(case, obs):
@@ -1167,7 +1261,10 @@ def oracle(case, obs):
 
 REQUIRED_COUNTERS = ['every_class', 'singleton', 'pav_cache_grows', 'pav_small_after_large', 'borda_n_changes',
                      'seeded_random', 'interleaved_objects', 'defaults_used', 'prev_gains_given', 'nested_prev_gains',
-                     'model:pav', 'model:borda', 'model:rng', 'model:rankval', 'model:scoreval', 'checker_materialised']
+                     'model:pav', 'model:borda', 'model:rng', 'model:rankval', 'model:scoreval', 'checker_materialised',
+                     'rng_directed', 'draw:Hare._subtract', 'draw:Hare._distribute_equal_ranking', 'draw:Sortitor.evaluate',
+                     'draw:RandomUnrankedBallotSelector.evaluate', 'draw_via:initial_allocation', 'draw_via:direct_transfer',
+                     'draw_via:next_count']
 
 
 def _mk(targets, calls, tags):
@@ -1280,11 +1377,82 @@ def generate(rng, tier):
         for _ in range(3 if tier == 'quick' else 30):
             calls = _history(rng, TG, name)
             yield _mk([name], calls, _tag_calls(TG, [name], calls, ['model:rng']))
+    # (5b) directed: every code path of a seeded component that draws, interleaved with other users of the global generator
+    yield from _rng_directed(rng, TG, 6 if tier == 'quick' else 60)
     # (6) a class found by reflection that the table does not know: try it with no arguments on simple votes
     for qn in untabled_classes():
         yield _mk(['Plurality'], [dict(c_eval_simple_sel(rng), t=0)], ['untabled_class:' + qn])
     if tier == 'thorough':
         yield from _exhaustive(TG)
+
+
+def _odd_shared(rng):
+    """(sharers, count) with a count the sharers cannot split evenly: the remainder is drawn"""
+    k = rng.choice([2, 2, 3])
+    n = rng.choice([x for x in range(1, 14) if x % k])
+    return rng.sample(['c0', 'c1', 'c2', 'c3'], k), n
+
+
+def _rng_calls(rng):
+    """target -> directed call generators, one per draw site"""
+    def transfer_shared(r):
+        sh, n = _odd_shared(r)
+        pairs = [('x', D([(T(['x', S(sorted(sh))]), n)]))] + [(c, D([(T([c]), r.randint(1, 4))])) for c in sh]
+        return call('transfer', D(pairs), L(['x']))
+
+    def stv_shared_first(r):          # shared FIRST rank: split in initial_allocation, no quota subtraction before it
+        sh, n = _odd_shared(r)
+        rest = [c for c in ['c0', 'c1', 'c2', 'c3'] if c not in sh][:1]
+        pairs = [(T([S(sorted(sh))]), n)] + [(T([c]), 3) for c in sh] + [(T([c]), 4) for c in rest]
+        return call('evaluate', D(pairs), 1)
+
+    def stv_elim_shared(r):           # nobody reaches the quota: the weakest is eliminated, its ballots go to a shared rank
+        sh, n = _odd_shared(r)
+        n = min(n, 5) if min(n, 5) % len(sh) else 1
+        pairs = [(T(['x', S(sorted(sh))]), n)] + [(T([c]), 6 + i) for i, c in enumerate(sh)]
+        return call('evaluate', D(pairs), 1)
+
+    def stv_surplus(r):               # a candidate over the quota with two seats: Hare._subtract draws the ballots to discard
+        return call('evaluate', D([(T(['c0', 'c1']), r.randint(9, 12)), (T(['c1']), 3), (T(['c2']), 4),
+                                   (T(['c0', 'c2']), r.randint(1, 3))]), 2)
+
+    def stv_surplus_shared(r):        # surplus transferred to a shared rank: both draw sites in one evaluation
+        return call('evaluate', D([(T(['c0', S(['c1', 'c2'])]), r.choice([9, 11, 13])), (T(['c1']), 3), (T(['c2']), 4)]), 2)
+
+    def sortition(r):
+        return call('evaluate', D([('p', 5), ('q', 4), ('r', 3), ('s', 2)]), r.randint(1, 3))
+
+    def ballots_frac(r):
+        return call('evaluate', D([('p', F(Fraction(5, 2))), ('q', 4), ('r', F(Fraction(1, 3)))]), r.randint(1, 2))
+
+    def tie(r):
+        return call('evaluate', D([('p', 5), ('q', 5), ('r', 5), ('s', 2)]), r.randint(1, 2))
+
+    stv = [stv_shared_first, stv_elim_shared, stv_surplus, stv_surplus_shared]
+    return {'Hare': [transfer_shared], 'TransferableVoteSelector:hare': stv, 'TransferableVoteDistributor:hare': stv,
+            'Sortitor': [sortition], 'Sortitor:seed8': [sortition, tie],
+            'RandomUnrankedBallotSelector': [sortition, ballots_frac], 'TieBreaking:sortitor': [tie]}
+
+
+PERTURBERS = ['Sortitor', 'Sortitor:seed8', 'Sortitor:unseeded', 'RandomUnrankedBallotSelector',
+              'RandomUnrankedBallotSelector:unseeded', 'Hare', 'Hare:unseeded']
+
+
+def _rng_directed(rng, TG, reps):
+    table = _rng_calls(rng)
+    for name, gens in table.items():
+        for g in gens:
+            for _ in range(reps):
+                others = rng.sample([p for p in PERTURBERS if p != name], 2)
+                targets = [name] + others
+                c0 = dict(g(rng), t=0)
+                calls = []
+                for k in range(3):            # the same call again and again, each time after another user of the generator
+                    ti = 1 + rng.randrange(2)
+                    pg = rng.choice(table.get(targets[ti]) or [TG[targets[ti]]['gen']])
+                    calls.append(dict(pg(rng), t=ti))
+                    calls.append(json.loads(json.dumps(c0)))
+                yield _mk(targets, calls, _tag_calls(TG, targets, calls, ['rng_directed', 'model:rng']))
 
 
 def _exhaustive(TG):
@@ -1406,13 +1574,22 @@ def model_line(case):
         # the vote is a frozenset of (candidate, score) pairs: identical pairs collapse
         line['calls'] = [sorted([_cid(c), num_str(sc)] for c, sc in decode(c['a'][0])) for c in case['calls']]
     elif m == 'rng':
-        reqs = {}
+        # the blocks are the ones the implementation was OBSERVED to make (shared run): each `random.seed` of the call
+        # opens a block, each draw is a request (numbered by its draw site); draws before the first reseed of a call
+        # have no counterpart in the model and are flagged by `reseed_contract` in `compare`
+        sites = {}
         calls = []
-        for c in case['calls']:
+        trace = case.get('_rng') or [[] for _ in case['calls']]
+        for c, ev in zip(case['calls'], trace):
             t = TG[case['targets'][c['t']]]
             if t.get('seed') is not None:
-                key = json.dumps([t['name'], c['m'], c['a'], c.get('k', {})], sort_keys=True)
-                calls.append({'seed': t['seed'], 'req': reqs.setdefault(key, len(reqs))})
+                blocks = []
+                for e in ev:
+                    if e.startswith('s:'):
+                        blocks.append([])
+                    elif blocks:
+                        blocks[-1].append(sites.setdefault(e, len(sites)))
+                calls.append({'seed': t['seed'], 'blocks': blocks})
             else:
                 calls.append({'other': 1})
         line['calls'] = calls
@@ -1481,8 +1658,13 @@ def _compare(case, iobs, mobs):
             t = TG[case['targets'][c['t']]]
             if t.get('seed') is None:
                 continue
-            if not mo or not mo[0] or not mo[0][0] or mo[0][0][0] != t['seed']:
-                return where + f'model draw was not preceded by a reseed: {mo}'
+            for run in ('rng', 'rng_fresh'):
+                bad = reseed_contract(t, iobs[run][i])
+                if bad:
+                    return where + f"{t['name']} is not an execution of the seededStep model ({run[4:] or 'shared'} run): {bad}"
+            nblocks = sum(1 for e in iobs['rng'][i] if e.startswith('s:'))
+            if len(mo) != nblocks or any(d[:1] != [t['seed']] for blk in mo for d in blk):
+                return where + f'model blocks {mo} do not match the observed reseeds of {t["name"]}'
             if io != iobs['fresh'][i]:
                 return where + (f'output of the seeded component on the shared generator {json.dumps(io)[:120]} is not the '
                                 f'function of (seed, request) the model says it is ({json.dumps(iobs["fresh"][i])[:120]})')
